@@ -450,3 +450,33 @@ def eof_skeletons():
                 continue
             out.append(Skeleton("eof/%d/%s" % (i, pos), text, meta={"rule": None, "first_line": 0}))
     return out
+
+
+# ---------------------------------------------------------------------------------------------------
+# if/else orientation family (C09: swap_if_else / remove_redundant_else / early_return must not ping-pong)
+
+SWAP_BLOCKS = [
+    "pass", "work(1)", "return 1", "raise E()", "work(1)\nwork(2)\nwork(3)\nwork(4)\nreturn 1",
+    "work(1)\nwork(2)\nwork(3)\nwork(4)", "if a:\n    return 1\nelse:\n    return 2",
+    "if a:\n    work(1)\nelse:\n    work(2)\nreturn 3", "if a:\n    if t:\n        return 1\n    return 2\nreturn 3",
+    "x = 1\nreturn x", "for i in range(2):\n    work(i)", "if a:\n    work(1)",
+]
+
+
+def swap_skeletons():
+    out = []
+    pre = prelude(4) + "class E(Exception):\n    pass\n\n\ndef work(x):\n    print(\"work\", x)\n\n\n"
+    k = 0
+    for b in SWAP_BLOCKS:
+        for o in SWAP_BLOCKS:
+            k += 1
+            for tail in ("return 0", ""):
+                body = "if t:\n%s\nelse:\n%s\n%s" % (textwrap.indent(b, "    "), textwrap.indent(o, "    "), tail)
+                text = pre + "def f(t, a):\n%s\n\n\nprint(f(inp(), inp()))\n" % textwrap.indent(body.rstrip("\n"), "    ")
+                try:
+                    compile(text, "<swap>", "exec")
+                except SyntaxError:
+                    continue
+                out.append(Skeleton("swap/%d%s" % (k, "r" if tail else ""), text, tape=4, fuel=300,
+                                    meta={"rule": "rule:fixes.swap_if_else", "first_line": pre.count("\n")}))
+    return out
